@@ -77,6 +77,9 @@ pub struct SimConfig {
     pub record_trace: bool,
     /// wall clock at simulated time zero, ns since the Unix epoch
     pub wall_epoch_ns: i64,
+    /// real timers never fire early and practically never exactly on time: when the clock jumps
+    /// to a timer's deadline it lands up to this many nanoseconds past it (0 = exactly on time)
+    pub timer_late_max_ns: u64,
 }
 
 impl Default for SimConfig {
@@ -88,6 +91,7 @@ impl Default for SimConfig {
             num_cpus: 1,
             record_trace: false,
             wall_epoch_ns: 1_700_000_000_000_000_000,
+            timer_late_max_ns: 0,
         }
     }
 }
@@ -561,7 +565,8 @@ impl Sim {
                 if let Some(key) = g.timers.keys().next().cloned() {
                     let target = g.timers.remove(&key).unwrap();
                     if key.0 > g.now {
-                        g.now = key.0;
+                        let late = if self.cfg.timer_late_max_ns > 0 { self.with_stream("timer-late", |r| r.below(self.cfg.timer_late_max_ns + 1)) } else { 0 };
+                        g.now = key.0 + late;
                         g.time_advances += 1;
                     }
                     match target {
@@ -911,7 +916,8 @@ impl Sim {
                 if let Some(key) = g.timers.keys().next().cloned() {
                     let target = g.timers.remove(&key).unwrap();
                     if key.0 > g.now {
-                        g.now = key.0;
+                        let late = if self.cfg.timer_late_max_ns > 0 { self.with_stream("timer-late", |r| r.below(self.cfg.timer_late_max_ns + 1)) } else { 0 };
+                        g.now = key.0 + late;
                         g.time_advances += 1;
                     }
                     match target {
